@@ -225,7 +225,8 @@ func (h *HistGen) literal() interface{} {
 	case 12:
 		return []interface{}{int(g.Intn(4)), int64(g.Intn(4))}
 	case 13:
-		return map[string]interface{}{"a": g.Intn(3)}
+		// objects that are prefixes / extensions of one another and of the stored sub-documents
+		return pickOf(g, []interface{}{map[string]interface{}{"a": g.Intn(3)}, map[string]interface{}{}, map[string]interface{}{"a": g.Intn(3), "b": g.Intn(3)}, map[string]interface{}{"b": g.Intn(3)}})
 	case 14:
 		return g.Prim()
 	default:
@@ -244,10 +245,11 @@ func (h *HistGen) critField() string {
 	if h.cur != nil && len(h.cur.indexes) > 0 && h.g.Chance(0.5) {
 		return pickOf(h.g, h.cur.indexes) // a field that has an index in the collection being queried
 	}
-	return pickOf(h.g, []string{"a", "a", "a", "b", "b", "x", "xy", "n.a", "n", "s", "ab", "zz", "_id", "t", "arr"})
+	return pickOf(h.g, []string{"a", "a", "a", "b", "b", "x", "xy", "n.a", "n", "n", "s", "ab", "zz", "_id", "t", "arr"})
 }
 
-var likePats = []string{"a", "^a", "a$", "^a.*b$", ".*", "^$", "b.*", "^ab", "a.*c", "x"}
+// the modelled regexp sub-language, plus patterns regexp.Compile rejects (Like is then false for every document)
+var likePats = []string{"a", "^a", "a$", "^a.*b$", ".*", "^$", "b.*", "^ab", "a.*c", "x", "(a", "[ab", "a)", "*a", "(draft"}
 
 func (h *HistGen) crit(depth int) *Crit {
 	g := h.g
@@ -262,6 +264,14 @@ func (h *HistGen) crit(depth int) *Crit {
 		}
 	}
 	f := h.critField()
+	if f == "n" && g.Chance(0.6) {
+		// the sub-document field against object literals that extend / are extended by the stored objects
+		lit := pickOf(g, []interface{}{map[string]interface{}{"a": g.Intn(3)}, map[string]interface{}{}, map[string]interface{}{"a": g.Intn(3), "b": g.Intn(3)}, map[string]interface{}{"a": g.Intn(3), "b": g.Intn(3), "c": 1}})
+		if g.Chance(0.25) {
+			return &Crit{Kind: "in", Field: f, Vals: []Operand{{Lit: lit}, {Lit: map[string]interface{}{}}}}
+		}
+		return &Crit{Kind: "cmp", Op: pickOf(g, []string{"OEq", "OGt", "OLt", "OGtEq", "OLtEq"}), Field: f, Val: Operand{Lit: lit}}
+	}
 	switch g.Intn(16) {
 	case 0, 1:
 		return &Crit{Kind: "cmp", Op: "OEq", Field: f, Val: h.operand()}
@@ -331,7 +341,7 @@ func (h *HistGen) sortOpts() []SortOpt {
 	}
 	opts := make([]SortOpt, 0, n+1)
 	for i := 0; i <= n; i++ {
-		f := pickOf(g, []string{"a", "a", "b", "x", "xy", "n.a", "s", "_id", "zz", "t"})
+		f := pickOf(g, []string{"a", "a", "b", "x", "xy", "n.a", "s", "_id", "zz", "t", "n", "arr"})
 		if h.cur != nil && len(h.cur.indexes) > 0 && g.Chance(0.4) {
 			f = pickOf(g, h.cur.indexes)
 		}
